@@ -190,11 +190,18 @@ def cross_check(interp, contract, shape, seed, n_samples=40, max_len=10):
     rng = random.Random(zlib.crc32(f'{contract.qualname}|{shape.name}'.encode()) ^ seed)
     evals = 0
     fails = []
-    skipped = 0
-    for vals in gen_inputs(interp, shape, rng, n_samples, max_len=max_len):
+    skipped = 0          # inputs the harness could not evaluate (a fault when frequent); inputs outside the precondition are not counted
+    outside = 0
+    # draw more than n_samples candidates: inputs outside the contract's precondition are discarded, and the quota is of *evaluated* inputs
+    for vals in gen_inputs(interp, shape, rng, n_samples * 6, max_len=max_len):
+        if evals >= n_samples or outside + skipped >= n_samples * 5:
+            break
         info = replay.replay(interp, contract, shape, vals)
         if info.get('reproduced') is None:
-            skipped += 1
+            if info.get('benign_skip'):
+                outside += 1
+            else:
+                skipped += 1
             continue
         evals += 1
         if info['reproduced']:
